@@ -337,3 +337,39 @@ package storage
 //@        && forall(x bitcoin.Hash32, x != BlockHashOf(*header) ==> has(repo.heights, x) == old(has(repo.heights, x)) && repo.heights[x] == old(repo.heights[x]))
 //@   ensures failed: result != nil ==> stsame() && memSame(repo)
 //@   ensures inv: InvMem(repo) && InvFull(repo)
+
+// no block file beyond the newest one (B6)
+//@ spec InvTop(r) = forall(f int, f > q(r.height) ==> !fileHas(f))
+//@ spec heightsSame(r) = same(r.heights) && forall(x bitcoin.Hash32, has(r.heights, x) == old(has(r.heights, x)) && r.heights[x] == old(r.heights[x]))
+
+//@ spec heightsSubset(r) = same(r.heights) && forall(x bitcoin.Hash32, has(r.heights, x) ==> old(has(r.heights, x)) && r.heights[x] == old(r.heights[x]))
+
+//@ func (*BlockRepository).Revert
+//@   serves C09 C10 C02
+//@   atomic mutex
+//@   safety index nil
+//@   requires InvMem(repo) && InvFull(repo) && InvTop(repo)
+//@   ensures rejected: height > old(repo.height) || height < 0 ==> result != nil && stsame() && memSame(repo) && heightsSame(repo)
+//@   ensures failed_memory_unchanged: result != nil ==> memSame(repo) && heightsSame(repo)
+//@   ensures failed_store_consistent: result != nil ==> InvFull(repo) && InvTop(repo)
+//@   ensures reverted: result == nil ==> repo.height == height && 0 <= height && height <= old(repo.height) && InvMem(repo)
+//@   ensures chain_prefix: result == nil ==> forall(k, 0, len(repo.lastHeaders), repo.lastHeaders[k] == old(Hdr(repo, 1000*q(height) + k)))
+//@   ensures stored: result == nil ==> fileIs(q(height), repo.lastHeaders) && InvTop(repo)
+//@        && forall(f, 0, q(height), fileHas(f) == old(fileHas(f)) && fileBlob(f) == old(fileBlob(f)))
+//@   ensures index_pruned: result == nil ==> heightsSubset(repo) && forall(i, height + 1, old(repo.height) + 1, !has(repo.heights, BlockHashOf(old(Hdr(repo, i)))))
+//@   ensures index_kept: result == nil ==> forall(x bitcoin.Hash32, old(has(repo.heights, x)) && forall(i, height + 1, old(repo.height) + 1, BlockHashOf(old(Hdr(repo, i))) != x) ==> has(repo.heights, x))
+//@   loop 0 invariant height <= removeHeight && removeHeight <= repo.height && 0 <= height && memSame(repo) && heightsSame(repo) && InvMem(repo) && InvFull(repo) && InvTop(repo)
+//@   loop 0 invariant sinceloop(stsame()) && fileIs(q(repo.height), repo.lastHeaders) && stsameexcept(bkey(q(repo.height)))
+//@   loop 0 invariant fresharr(removedHashes) && len(removedHashes) == repo.height - removeHeight
+//@   loop 0 invariant forall(k, 0, len(removedHashes), removedHashes[k] == BlockHashOf(old(Hdr(repo, old(repo.height) - k))))
+//@   loop 1 invariant (revertedHeight + 1) % 1000 == 0 && revertedHeight >= -1 && revertedHeight <= 1000*q(repo.height) - 1 && revertedHeight + 1000 >= height && 0 <= height
+//@   loop 1 invariant memSame(repo) && heightsSame(repo) && height <= repo.height && InvMem(repo)
+//@   loop 1 invariant forall(f int, f > q(revertedHeight + 1000) ==> !fileHas(f))
+//@   loop 1 invariant forall(f int, 0 <= f && f < q(repo.height) && f <= q(revertedHeight + 1000) ==> fileHas(f) == old(fileHas(f)) && fileBlob(f) == old(fileBlob(f)))
+//@   loop 1 invariant q(revertedHeight + 1000) == q(repo.height) ==> fileIs(q(repo.height), repo.lastHeaders)
+//@   loop 2 invariant fresharr(headers) && len(headers) == rpos(buf) && 0 <= rpos(buf) && rpos(buf) <= ntok(buf) && ntok(buf) == blobntok(sliceblob(data)) && memSame(repo) && heightsSame(repo)
+//@   loop 2 invariant forall(k, 0, len(headers), headers[k] == blobhdr(sliceblob(data), k))
+//@   loop 2 invariant sinceloop(stsame())
+//@   loop 3 invariant 0 <= _i && _i <= len(removedHashes) && heightsSubset(repo) && same(repo.height, repo.lastHeaders) && sinceloop(stsame())
+//@   loop 3 invariant forall(k, 0, _i, !has(repo.heights, removedHashes[k]))
+//@   loop 3 invariant forall(x bitcoin.Hash32, old(has(repo.heights, x)) && forall(k, 0, len(removedHashes), removedHashes[k] != x) ==> has(repo.heights, x))
